@@ -190,6 +190,10 @@ func MutexHeld(m interface{}) bool {
 	panic("MutexHeld: unsupported type")
 }
 
+// MutexesHeld is the number of mutexes (of any package, exported or not) held at this point under the engine;
+// natively it is 0 (use MutexHeld / a timed Lock for the ones that can be named). (intercepted)
+func MutexesHeld() int { return 0 }
+
 func Event(s string)          { events[s]++ }
 func EventCount(s string) int { return events[s] }
 
